@@ -259,7 +259,14 @@ fn flat_obj(r: &mut Rng, used: &mut BTreeSet<String>) -> Value {
             if used.contains(id) {
                 scalar(r)
             } else {
-                new_elem(r, id.to_string(), used, false)
+                let mut e = new_elem(r, id.to_string(), used, false);
+                // a flattened object need not carry an identifier: the library derives one from its path
+                if r.chance(1, 6) {
+                    if let Some(o) = e.as_object_mut() {
+                        o.remove("_id");
+                    }
+                }
+                e
             }
         }
     }
